@@ -171,8 +171,82 @@ def install_encoding(m):
         return some(EncodingRef(name))
     L['encoding_from_whatwg_label'] = from_label
 
+    def utf16_decode(m, es, big):
+        """Strict UTF-16 decoding of symbolic bytes -> Ok(String as UTF-8 elems) | Err."""
+        pass
+        import z3 as _z3
+        bad = lambda: err(Adt('Cow', 'Borrowed', [str_ptr(b'invalid sequence')]))
+        if len(es) % 2:
+            # decoding proceeds unit by unit; an incomplete trailing unit is an error in strict mode (after the complete ones were checked)
+            es_full = es[:-1]
+        else:
+            es_full = es
+        units = []
+        for i in range(0, len(es_full), 2):
+            hi, lo = (es_full[i], es_full[i + 1]) if big else (es_full[i + 1], es_full[i])
+            units.append(_z3.simplify(_z3.Concat(hi.z(), lo.z())))
+        out = []
+        i = 0
+        while i < len(units):
+            u = units[i]
+            is_hi = _z3.And(_z3.UGE(u, 0xD800), _z3.ULE(u, 0xDBFF))
+            is_lo = _z3.And(_z3.UGE(u, 0xDC00), _z3.ULE(u, 0xDFFF))
+            if m.ctx.branch(is_lo):
+                return bad()
+            if m.ctx.branch(is_hi):
+                if i + 1 >= len(units):
+                    return bad()
+                v = units[i + 1]
+                if not m.ctx.branch(_z3.And(_z3.UGE(v, 0xDC00), _z3.ULE(v, 0xDFFF))):
+                    return bad()
+                cp = _z3.ZeroExt(16, u - 0xD800) * 0x400 + _z3.ZeroExt(16, v - 0xDC00) + 0x10000
+                i += 2
+            else:
+                cp = _z3.ZeroExt(16, u)
+                i += 1
+            cp = _z3.simplify(cp)
+            b = lambda x: Int('u8', _z3.simplify(_z3.Extract(7, 0, x)))
+            if m.ctx.branch(_z3.ULT(cp, 0x80)):
+                out.append(b(cp))
+            elif m.ctx.branch(_z3.ULT(cp, 0x800)):
+                out += [b(0xC0 | _z3.LShR(cp, 6)), b(0x80 | (cp & 0x3F))]
+            elif m.ctx.branch(_z3.ULT(cp, 0x10000)):
+                out += [b(0xE0 | _z3.LShR(cp, 12)), b(0x80 | (_z3.LShR(cp, 6) & 0x3F)), b(0x80 | (cp & 0x3F))]
+            else:
+                out += [b(0xF0 | _z3.LShR(cp, 18)), b(0x80 | (_z3.LShR(cp, 12) & 0x3F)), b(0x80 | (_z3.LShR(cp, 6) & 0x3F)), b(0x80 | (cp & 0x3F))]
+        if len(es) % 2:
+            return bad()
+        return ok(new_string(out))
+
+    def decode_free(m, a, c, rt):
+        """encoding::decode(input, trap, fallback): BOM sniffing, then the designated decoder."""
+        from .lib_std import bytes_eq
+        es = elems_of(m, a[0])
+        fallback = a[2]
+        fb = deref(m, fallback) if not isinstance(fallback, EncodingRef) else fallback
+        def starts(prefix):
+            if len(es) < len(prefix):
+                return False
+            return m.ctx.branch(bytes_eq(es[:len(prefix)], [Int('u8', x) for x in prefix]))
+        if starts([0xEF, 0xBB, 0xBF]):
+            r = decode(m, [EncodingRef('UTF_8'), new_slice_of(es[3:])], c, rt)
+            return Tuple([r, EncodingRef('UTF_8')])
+        if starts([0xFE, 0xFF]):
+            return Tuple([utf16_decode(m, es[2:], True), EncodingRef('UTF_16BE')])
+        if starts([0xFF, 0xFE]):
+            return Tuple([utf16_decode(m, es[2:], False), EncodingRef('UTF_16LE')])
+        return Tuple([decode(m, [fb, new_slice_of(es)], c, rt), fb])
+
+    def new_slice_of(es):
+        from .values import Array
+        arr = Array(list(es))
+        return Ptr(Cell(arr), (), ('slice', 0, len(es)))
+
     def decode(m, a, c, rt):
-        enc = deref(m, a[0])
+        first = a[0] if isinstance(a[0], EncodingRef) else deref(m, a[0])
+        if not isinstance(first, EncodingRef):
+            return decode_free(m, a, c, rt)
+        enc = first
         es = elems_of(m, a[1])
         if enc.name == 'UTF_8':
             if utf8_valid(m, es):
